@@ -544,6 +544,7 @@ var c11Findings = []c11Finding{
 	{"go-extends-service-name-case", "go", "valid", "service X extends lowercase_name: the parent client is referenced as F<name as written>Client but declared camel-cased"},
 	{"go-duplicate-exception-type", "go", "valid", "throws (1: E a, 2: E b): duplicate case *E in the generated type switch"},
 	{"java-container-constant-reference", "java", "valid", "const list<i32> b = a (a constant of container type referring to another constant): Java generator panics (interface conversion)"},
+	{"go-service-import-through-typedef", "go", "valid", "a service method whose argument type is a local typedef of a container with an include-qualified element (typedef list<base.thing> things): the Go service file uses base.Thing in the expanded read/write code but imports are computed from the type names as written: undefined: base"},
 	{"unchecked-semantic-errors", "json", "invalid", "duplicate struct/enum/typedef/constant/field names, constant values of the wrong type, unknown extends, duplicate ids in throws are not validated: exit 0 (or a recovered panic) for invalid IDL"},
 }
 
